@@ -1023,6 +1023,11 @@ func (e *Engine) runAts(st *State, in ssa.Instruction, after bool) {
 		env := e.envFor(st, evalFr, st.old)
 		env.extraFr = fr
 		if ci, ok := in.(ssa.CallInstruction); ok {
+			if ci.Common().IsInvoke() {
+				// interface method call: callrecv is the interface value the method is called on
+				rv := e.reg(st, ci.Common().Value)
+				env.callRecv = &rv
+			}
 			for _, a := range ci.Common().Args {
 				if r, ok := fr.regs[a]; ok {
 					env.callArgs = append(env.callArgs, r)
